@@ -125,11 +125,37 @@ def gen(rng, tier):
             pr = Prog("drv::run_ext_cmp<%s, %s>(caseno, tk)" % (ext_type(ts, ps), ext_type(tt, pt)),
                       "cmp %s == %s" % (ext_type(ts, ps), ext_type(tt, pt)))
             progs.append(pr)
-            for k in range(2):
+            for k in range(3):
                 va = [(a if a != DYN else rand_val(rng, ts)) for a in ps]
                 if k == 0 and len(ps) == len(pt):
                     # aim at equality: copy what is free to copy
                     vb = [(b if b != DYN else min(va[i], imax(tt))) for i, b in enumerate(pt)]
+                elif k == 2 and len(ps) == len(pt) and BITS[ts] != BITS[tt]:
+                    # aim at the comparison's conversion: values that differ but are congruent modulo the
+                    # width of the narrower index type (equal after a narrowing cast, different in the common type)
+                    nb = min(BITS[ts], BITS[tt])
+                    va = [(a if a != DYN else rng.choice([0, 1, 3, 4, 44])) for a in ps]
+                    vb = list(va)
+                    wide_is_b = BITS[tt] > BITS[ts]
+                    wpat, wv, wt_ = (pt, vb, tt) if wide_is_b else (ps, va, ts)
+                    dyn_pos = [i for i, p_ in enumerate(wpat) if p_ == DYN]
+                    for i, p_ in enumerate(pt):
+                        if p_ != DYN:
+                            vb[i] = p_
+                    for i, p_ in enumerate(ps):
+                        if p_ != DYN:
+                            va[i] = p_
+                    if not dyn_pos:
+                        continue
+                    i = rng.choice(dyn_pos)
+                    other = va[i] if wide_is_b else vb[i]
+                    cand = other + (1 << nb) * rng.choice([1, 1, 2])
+                    if cand > imax(wt_):
+                        continue
+                    wv[i] = cand
+                    if any(v > imax(ts) for v in va) or any(v > imax(tt) for v in vb):
+                        continue
+                    hist["cmp congruent-mod-width"] += 1
                 else:
                     vb = [(b if b != DYN else rand_val(rng, tt)) for b in pt]
                 cases.append((pr, [None, 2, ts, len(ps)] + list(ps) + [tt, len(pt)] + list(pt) + va + vb,
